@@ -713,6 +713,77 @@ func rulesC06(p *Prog, r *Report) {
 		}
 		check(ed, "Deposit", map[string][]int{"mint": {2}, "accepted": {0, 1}})
 		check(ew, "Withdraw", map[string][]int{"withdrawn": {0, 1}})
+		// the withdraw math is given the withdraw fee rate, and every paying path burns the redeemed shares
+		for _, c := range calls(ew) {
+			call, ok := c.(*ssa.Call)
+			if !ok || calleeShortName(&call.Call) != "Withdraw" || !strings.HasSuffix(calleeFullName(&call.Call), "amm.Withdraw") {
+				continue
+			}
+			r.Instance("R06.3")
+			args := call.Call.Args
+			if len(args) == 5 && p.fromRecordFieldsLoose(args[4], map[string]bool{"GenericParams": true}, map[string]bool{"WithdrawFeeRate": true}) {
+				r.OK("R06.3", fname(ew)+" fee rate", "amm.Withdraw is given the app's WithdrawFeeRate", p.instrPos(c))
+			} else {
+				r.Fail("R06.3", fname(ew)+" fee rate", "the fee rate handed to amm.Withdraw is not the app's WithdrawFeeRate: withdrawals return more (or less) than the pro-rata part reduced by the withdrawal fee", p.instrPos(c), nil)
+			}
+			if len(args) == 5 {
+				okRes := true
+				for i, want := range []string{"", "", "GetPoolCoinSupply"} {
+					if want == "" {
+						continue
+					}
+					hit := false
+					for _, o := range p.Origins(args[i]) {
+						if o.Kind == "call" && p.callIs(o.Call, want) {
+							hit = true
+						}
+					}
+					if !hit {
+						okRes = false
+					}
+				}
+				r.Instance("R06.3")
+				if okRes {
+					r.OK("R06.3", fname(ew)+" supply argument", "share supply read from the bank supply of the pool coin", p.instrPos(c))
+				} else {
+					r.Fail("R06.3", fname(ew)+" supply argument", "the share supply handed to amm.Withdraw is not the pool coin supply", p.instrPos(c), nil)
+				}
+			}
+		}
+		{
+			r.Instance("R06.3")
+			burn := map[*ssa.BasicBlock]bool{}
+			var pays []*ssa.BasicBlock
+			for _, c := range calls(ew) {
+				if be := bankEffect(c); be != nil && be.Op == "Burn" {
+					burn[c.Block()] = true
+				}
+				if p.callIs(c, "QueueSendCoins") {
+					if a := callArgs(c); len(a) >= 3 {
+						if _, fromReserve := isCallNamed(a[0], "GetReserveAddress"); fromReserve {
+							pays = append(pays, c.Block())
+						}
+					}
+				}
+			}
+			bad := len(burn) == 0 || len(pays) == 0
+			for _, pb := range pays {
+				if burn[pb] {
+					continue
+				}
+				seen, _ := reach(ew, pb, nil, burn)
+				for _, t := range p.successTargets(nil, ew, 0) {
+					if seen[t] {
+						bad = true
+					}
+				}
+			}
+			if bad {
+				r.Fail("R06.3", fname(ew)+" burns what it redeems", "a withdrawal can pay out reserves and succeed without burning the redeemed pool coins: reserves per outstanding share decrease", p.pos(ew.Pos()), nil)
+			} else {
+				r.OK("R06.3", fname(ew)+" burns what it redeems", "every success path that pays out reserves burns the redeemed shares", p.pos(ew.Pos()))
+			}
+		}
 	}
 	_ = token.ADD
 }
